@@ -808,7 +808,7 @@ func (t *Tree) Compile(file string, args []string, out io.Writer) (err error) {
 						ordered.PushBack(element.Copy())
 					} else {
 						class := &node{Type: TypeUnorderedAlternate}
-						for d := range unicode.MaxRune {
+						for d := range unicode.MaxRune + 1 {
 							/* surrogates cannot occur in the rune buffer and all print as U+FFFD */
 							if properties[i].s.Has(d) && utf8.ValidRune(d) {
 								class.PushBack(&node{Type: TypeCharacter, string: string(d)})
